@@ -30,7 +30,8 @@ def own_obligations(tier):
     for nm, defs, d, to in [("thread_create_noattr", ["WHICH=0", "WITH_ATTR=0"], "ABT_thread_create (default attributes) into a built-in or user-defined pool", 200),
                             ("thread_create_migcb", ["WHICH=0", "WITH_ATTR=1"], "ABT_thread_create with an attribute carrying a migration callback (migration record + key table)", 300),
                             ("sched_ult_create", ["WHICH=1"], "ABTI_ythread_create_sched (the body of ABT_pool_add_sched) for the caller's scheduler, automatic or not", 400),
-                            ("task_create", ["WHICH=2"], "ABT_task_create into a built-in or user-defined pool", 200)]:
+                            ("task_create", ["WHICH=2"], "ABT_task_create into a built-in or user-defined pool", 200),
+                            ("thread_create_many", ["WHICH=3"], "ABT_thread_create_many (2 ULTs, handle array): every array entry is afterwards untouched, the NULL handle, or the handle of a ULT that was really created", 300)]:
         o.append(Obl("unit_" + nm, "C18/create_unit.c", d + ": the k-th allocation fails (k symbolic) and/or the user-defined pool refuses the unit / the unit map fails (symbolic): error code, nothing left allocated, no unit left in the pool, nothing pushed, NULL or untouched handle, objects passed in by the caller (the scheduler) neither freed nor modified; success pushes exactly once",
                      defs=defs, unwind=4, unwindset=["ABTD_spinlock_acquire.0:2", "ABTD_spinlock_acquire.1:2"], object_bits=11, backend="cadical", no_std=["--pointer-overflow-check"], restrict_fp=KD, timeout=to, mem_gb=10,
                      encodes=["ythread_create", "ABT_thread_create", "ABTI_ythread_create_sched", "ABT_task_create", "ABTI_thread_init_pool", "ABTI_ktable_set_unsafe", "ABTI_ktable_free", "ABTI_mem_free_thread"],
